@@ -273,9 +273,10 @@ def rule_adder(ctx):
     if is_max:
         r.ok(key, C.loc(f, rt), "result exponent = max of both exponents")
     else:
-        r.violation(key, C.loc(f, rt), "the sum keeps one operand's exponent instead of the "
-                    "larger of the two: 10**(ye - xe) overflows when a later term is many "
-                    "decades larger than the running total", exponent=C.unparse(e))
+        r.violation(key, C.loc(f, rt), "the common exponent is not `max(xe, ye)`: either one operand's "
+                    "exponent is kept (10**(ye - xe) overflows when a later term is many decades larger "
+                    "than the running total) or the maximum is computed arithmetically, which is nan "
+                    "for the zero sentinel -inf", exponent=C.unparse(edef[0], 60))
     # every power of ten has a non-positive exponent of the form (own - common)
     key = ctx.key(f, "C19-ADDER", "bounded-rescale")
     pows = [n for n in walk_local(f.node) if isinstance(n, ast.BinOp) and isinstance(n.op, ast.Pow)
